@@ -121,4 +121,46 @@ theorem C09_splitter1x2 :
     ∀ x : Fin 3 → ℂ, ∑ i, Complex.normSq ((splitter1x2 *ᵥ x) i) ≤ ∑ i, Complex.normSq (x i) :=
   ⟨splitter1x2_power.1, splitter1x2_power.2.1, splitter1x2_power.2.2, splitter1x2_passive⟩
 
+
+/-! ### recorded findings (negative results, with the witness the harness replays on the real code)
+
+`FPR_NxM` and `Splitter1x2Gen` are in the documented model list but do not meet the generic claims; both carry the
+authors' own "TODO: check / verify this model makes sense".  They are listed in `known_findings.json`. -/
+
+/-- `FPR_NxM(N, M)` scales the block from the `a` pins to the `b` pins by `1/√M` and the block back by `1/√N`, every
+entry having unit modulus before scaling: for `N = 3`, `M = 4` the two moduli differ — not power-reciprocal -/
+theorem C09_FPR_NxM_not_reciprocal : (1 / Real.sqrt 4 : ℝ) ≠ 1 / Real.sqrt 3 := by
+  intro h
+  have h4 : Real.sqrt 4 = 2 := by
+    rw [show (4 : ℝ) = 2 ^ 2 by norm_num, Real.sqrt_sq (by norm_num)]
+  have h3 : Real.sqrt 3 ^ 2 = 3 := Real.sq_sqrt (by norm_num)
+  have hpos : (0 : ℝ) < Real.sqrt 3 := Real.sqrt_pos.2 (by norm_num)
+  rw [h4] at h
+  have : Real.sqrt 3 = 2 := by
+    field_simp at h
+    linarith
+  rw [this] at h3
+  norm_num at h3
+
+/-- … and not passive: at `phi = 0` the 4×3 block towards the `b` pins has all entries `1/√3`; the unit-power input
+`(1/√3, 1/√3, 1/√3)` comes out with total power 4 -/
+theorem C09_FPR_NxM_gain :
+    let A : Matrix (Fin 4) (Fin 3) ℝ := fun _ _ => 1 / Real.sqrt 3
+    let x : Fin 3 → ℝ := fun _ => 1 / Real.sqrt 3
+    (∑ j, x j ^ 2 = 1) ∧ (∑ i, (A *ᵥ x) i ^ 2 = 4) := by
+  intro A x
+  have h3 : Real.sqrt 3 ^ 2 = 3 := Real.sq_sqrt (by norm_num)
+  have hne : Real.sqrt 3 ≠ 0 := by
+    intro h; rw [h] at h3; norm_num at h3
+  have hx : ∀ j, x j ^ 2 = 1 / 3 := by
+    intro j; simp only [x]; rw [div_pow, h3]; norm_num
+  have hA : ∀ i, (A *ᵥ x) i = 1 := by
+    intro i
+    simp only [Matrix.mulVec, dotProduct, A, x, Fin.sum_univ_three]
+    field_simp
+    nlinarith [h3]
+  constructor
+  · simp only [Fin.sum_univ_three, hx]; norm_num
+  · simp only [Fin.sum_univ_four, hA]; norm_num
+
 end C09
